@@ -151,6 +151,67 @@ impl<'a> Visitor for Enumerate<'a> {
     }
 }
 
+/// Deep range: operands X = s Y with s = 2^33 (single) / 2^257 (double precision) and Y of order one
+/// in every part.  The homogeneous operations satisfy f(s Y) = s^k f(Y) in every part, and every
+/// part of the result is a normal number although intermediate powers of the real part (x^4, 1/x^4)
+/// overflow or are subnormal: an implementation that forms such a power explicitly returns 0, inf or
+/// NaN in a part.  Oracle: s^k x (reference value of f(Y)), relative tolerance 1e-4 (a subnormal
+/// coefficient carries 19 bits in single precision); only gross errors are reported here.
+struct DeepRange<'a> {
+    stats: &'a mut Stats,
+    cases: usize,
+}
+impl<'a> Visitor for DeepRange<'a> {
+    fn visit<F: Flt, D: Subject<F>>(&mut self, d: Dims) {
+        let l = D::layout(d);
+        let e: i32 = if F::PREC == 53 { 257 } else { 33 };
+        let s = 2f64.powi(e);
+        let jobs: [(Op, i32); 5] = [(Op::Recip, -1), (Op::Powi(2), 2), (Op::Powi(3), 3), (Op::Mul, 2), (Op::Div, 0)];
+        for (op, k) in jobs {
+            // the value s^k (0.75 .. 2)^k must stay inside the range with a margin
+            if (k * e).abs() > if F::PREC == 53 { 900 } else { 100 } {
+                continue;
+            }
+            let res: [f64; 2] = [0.75, -1.25];
+            let ys: Vec<Parts<F>> = (0..op.arity()).map(|a| few_assignments::<F>(&l, res[a], 1, a * l.nslots()).remove(0)).collect();
+            let xs: Vec<Parts<F>> = ys.iter().map(|p| Parts { vals: p.vals.iter().map(|v| F::from64(v.to64() * s)).collect(), present: p.present.clone() }).collect();
+            let vals: Vec<Val> = ys.iter().map(|p| Val::exact(p.to_jet::<refmodel::DD>(&l))).collect();
+            let want = apply_ref(op, &vals, F::U);
+            let args: Vec<D> = xs.iter().map(|p| D::build(d, p)).collect();
+            self.stats.evaluations += 1;
+            self.stats.transitions += 1;
+            self.cases += 1;
+            let key = hash64(&("deep", l.type_name.as_str(), format!("{op:?}")));
+            self.stats.state(key);
+            self.stats.nontrivial(key);
+            let case = || json!({"type": l.type_name, "dims": [d.m, d.n], "op": op_to_json(op), "scale": format!("2^{e}"), "args_before_scaling": ys.iter().map(parts_to_json).collect::<Vec<_>>()});
+            let got = match guarded(|| exec_generic::<F, D>(op, &args).parts(d)) {
+                Ok(g) => g,
+                Err(m) => {
+                    self.stats.violation(Violation { sig: format!("deep-range {} {} panic", op.name(), l.type_name), case: case(), what: format!("panicked: {m}") });
+                    continue;
+                }
+            };
+            let sk = 2f64.powi(k * e);
+            for (i, slot) in l.slots.iter().enumerate() {
+                let w = want.v.get(slot.monos[0]).to_f64() * sk;
+                if !w.is_finite() || w.abs() < (if F::PREC == 53 { f64::MIN_POSITIVE } else { f32::MIN_POSITIVE as f64 }) * 2f64.powi(30) {
+                    continue;
+                }
+                let g = got.alpha(&l, i).to64();
+                if !((g - w).abs() <= 1e-4 * w.abs()) {
+                    self.stats.violation(Violation {
+                        sig: format!("deep-range {} {} order{}", op.name(), l.type_name, l.slot_degree(i)),
+                        case: case(),
+                        what: format!("{} of operands scaled by 2^{e}: slot {} is {g:e}, expected {w:e} (= 2^{} x the value at the unscaled operands)", op.name(), slot.name, k * e),
+                    });
+                    break;
+                }
+            }
+        }
+    }
+}
+
 fn run_call<F: Flt, D: Subject<F>>(op: Op, x: f64) -> Result<Vec<u64>, String> {
     let d = Dims::NONE;
     let l = D::layout(d);
@@ -243,19 +304,26 @@ fn main() {
     let axes = std::mem::take(&mut e.axes);
     let reduced = e.reduced;
     let (hist_calls, hist_pairs) = history_independence(&mut stats);
+    let deep_cases = {
+        let mut dr = DeepRange { stats: &mut stats, cases: 0 };
+        scalar_types(&mut dr);
+        static_vector_types(Tier::Quick, &mut dr);
+        nested_types(Tier::Quick, &mut dr);
+        dr.cases
+    };
     let kap: Vec<Value> = jobs(53).iter().map(|(op, _)| json!({"op": op.name(), "kappa": kappa(*op)})).collect();
     let rep = Report {
         property: PROP,
         mode: cli.mode,
         seed: cli.seed,
         start,
-        rule: "every interface function x every type of the universe (f32 and f64, static, dynamic, nested) x every point of the function's domain grid x every presence pattern x the full tensor grid of derivative-part values (degree+1 values per part incl. 0, pairwise distinct non-parallel directions); non-trivial = an operand part is neither 0 nor 1 and the result has a non-zero derivative part; distinct by (type, op, operand bits, presence); plus history independence: for every function family every ordered pair of calls from {f32, f64} x parameter variants x 2 points, the second call's bits must not depend on the first".into(),
+        rule: "every interface function x every type of the universe (f32 and f64, static, dynamic, nested) x every point of the function's domain grid x every presence pattern x the full tensor grid of derivative-part values (degree+1 values per part incl. 0, pairwise distinct non-parallel directions); non-trivial = an operand part is neither 0 nor 1 and the result has a non-zero derivative part; distinct by (type, op, operand bits, presence); plus history independence: for every function family every ordered pair of calls from {f32, f64} x parameter variants x 2 points, the second call's bits must not depend on the first; plus deep range: recip, powi(2), powi(3), product and quotient of operands scaled by 2^33 / 2^257 in every part against s^k times the reference at the unscaled operands (relative 1e-4)".into(),
         assumptions: vec![
             "reference: refmodel double-double algebra, audited against mpmath (audit/audit.py)".into(),
             "tolerance per part: kappa_op * u * sum of |Taylor coefficient| * |operand parts| products (DESIGN 2.5); composite functions (tan, tanh, sph_j*) additionally get the propagated bound of their defining expression".into(),
             "real parts are grid points with a fixed margin from singularities, not all floats".into(),
         ],
-        extra: json!({"axes": axes, "sweeps_with_reduced_grid": reduced, "history_calls": hist_calls, "history_pairs": hist_pairs, "kappa": kap, "oracle": "reference algebra over double-double, ODE-generated Taylor coefficients"}),
+        extra: json!({"axes": axes, "sweeps_with_reduced_grid": reduced, "deep_range_cases": deep_cases, "history_calls": hist_calls, "history_pairs": hist_pairs, "kappa": kap, "oracle": "reference algebra over double-double, ODE-generated Taylor coefficients"}),
         exhaustive: true,
         caps: vec![],
     };
